@@ -1,4 +1,5 @@
 import ColaVerif.Lemmas.OpMatmat
+import ColaVerif.Lemmas.OpDtype
 
 /-!
 # C01 — an operator acts on arrays exactly as the matrix it represents (property theorems)
@@ -31,6 +32,35 @@ theorem C01_matvec_partial (A : Op R) (hwf : A.wf = true) (hnd : A.dupSlice = fa
 theorem C01_toDense_partial (A : Op R) (hwf : A.wf = true) (hnd : A.dupSlice = false) (hh : A.HermOK) :
     EqOn A.rows A.cols A.td.f A.den.f := Op.td_eq A hwf hnd hh
 
+/-! ## dtype -/
+
+omit [CommRing R] [StarRing R] [DecidableEq R] in
+/-- **C01 (dtype).**  The dtype every constructor computes (`Op.dtype`: `reduce(promote_types, …)`
+over the members for Product / Sum / Kronecker / KronSum / BlockDiag / Concatenated, the parent's
+dtype for Transpose / Adjoint / Sliced / `no_dispatch` / declaration wrappers) is the join of the
+dtypes of the payload-carrying leaves of the tree (`Op.dtypeSpec`, Model/Dtype.lean: complex iff
+some leaf is complex, double precision iff some leaf is) — for EVERY tree, no hypothesis. -/
+theorem C01_dtype (A : Op R) : A.dtype = A.dtypeSpec := Op.dtype_eq_dtypeSpec A
+
+omit [CommRing R] [StarRing R] [DecidableEq R] in
+/-- **C01 (result dtype).**  `A @ X`, `X @ A` return an array of dtype
+`promote_types(A.dtype, X.dtype)` (`Op.mmDtype`, what every `_matmat` / `_rmatmat` ends in); that is
+the join of the leaf dtypes of `A` and the operand's dtype (`Op.mmDtypeSpec`): "the promoted dtype
+of the dense computation".  `A.to_dense()` has dtype `A.dtype`, covered by `C01_dtype`. -/
+theorem C01_result_dtype (A : Op R) (xdt : DType) : A.mmDtype xdt = A.mmDtypeSpec xdt :=
+  Op.mmDtype_eq_spec A xdt
+
+/-- the specification really is NumPy's promotion table on an example with all four dtypes:
+`kron(f32, prod(c64, f64))` is complex128, and multiplying a float32 array into a
+`sum(f32, c64)` gives complex64 -/
+example :
+    (Op.kron [.dense .f32 1 1 (fun _ _ => (1 : Int)),
+      .prod [.diag .c64 1 (fun _ => 1), .eye .f64 1]]).dtypeSpec = .c128 ∧
+    (Op.sum [.dense .f32 1 1 (fun _ _ => (1 : Int)), .diag .c64 1 (fun _ => 1)]).mmDtypeSpec .f32
+      = .c64 := by
+  simp [Op.dtypeSpec, Op.mmDtypeSpec, Op.leafDtypes, DType.join, DType.isComplex, DType.isDouble,
+    DType.mk]
+
 /-- the clause is needed: with a repeated index the scatter `Y[idx] = X` (last write wins) of
 `Sliced._matmat` loses a contribution — kernel-level witness (a 1×2 parent `[1 2]`, columns
 `[0, 0]`, operand `[1, 1]ᵀ`): the code gives 1, the represented matrix `[1 1]` gives 2. -/
@@ -52,6 +82,8 @@ end C01
 #print axioms C01.C01_matmat_partial
 #print axioms C01.C01_matvec_partial
 #print axioms C01.C01_toDense_partial
+#print axioms C01.C01_dtype
+#print axioms C01.C01_result_dtype
 #print axioms C01.C01_clause_needed
 #print axioms kronMatmat_eq
 #print axioms kronSumMatmat_eq
